@@ -51,7 +51,7 @@ func (c *Ctx) duplicateConsts(pkgRel, prefix string) []string {
 
 var packetPathRoots = map[string]bool{
 	"cmd/rdpgw/protocol.readMessage": true, "cmd/rdpgw/protocol.readHeader": true,
-	"cmd/rdpgw/protocol.receive": true, "cmd/rdpgw/protocol.forward": true,
+	"cmd/rdpgw/protocol.receive": true, "cmd/rdpgw/protocol.forward": true, "cmd/rdpgw/protocol.createPacket": true,
 	"(*cmd/rdpgw/transport.LegacyPKT).ReadPacket": true, "(*cmd/rdpgw/transport.WSPKT).ReadPacket": true,
 	"(*cmd/rdpgw/transport.LegacyPKT).WritePacket": true, "(*cmd/rdpgw/transport.WSPKT).WritePacket": true,
 	"(*cmd/rdpgw/protocol.Tunnel).Read": true, "(*cmd/rdpgw/protocol.Tunnel).Write": true,
@@ -85,6 +85,20 @@ func (c *Ctx) bufOrigins(v ssa.Value) []Origin {
 				}
 			}
 		}
+		// buf.Bytes() of a bytes.Buffer: the storage is the buffer object's
+		if o.Kind == "call" && o.Call != nil && calleeName(o.Call) == "(*bytes.Buffer).Bytes" && len(o.Call.Common().Args) > 0 {
+			sub := c.bufOrigins(o.Call.Common().Args[0])
+			shared := false
+			for _, so := range sub {
+				if _, sh := sharedOrigin(so, true); sh {
+					shared = true
+				}
+			}
+			if shared {
+				out = append(out, sub...)
+				continue
+			}
+		}
 		if o.Kind == "other" {
 			if u, ok := o.Value.(*ssa.UnOp); ok && u.Op == token.MUL {
 				out = append(out, c.bufOrigins(u.X)...)
@@ -107,6 +121,17 @@ func sharedOrigin(o Origin, pooled bool) (string, bool) {
 	case "call":
 		if pooled && o.Call != nil && calleeName(o.Call) == "(*sync.Pool).Get" {
 			return "object taken from a sync.Pool (handed to the next caller after Put)", true
+		}
+	case "other":
+		if pooled {
+			if u, ok := o.Value.(*ssa.UnOp); ok && u.Op == token.ARROW {
+				return "object received from a channel (a free list every tunnel takes from)", true
+			}
+			if ex, ok := o.Value.(*ssa.Extract); ok {
+				if _, isSel := ex.Tuple.(*ssa.Select); isSel {
+					return "object received from a channel in a select (a free list every tunnel takes from)", true
+				}
+			}
 		}
 	case "field":
 		if o.Base != nil {
